@@ -223,7 +223,7 @@ pub fn eval_file(case: &FileCase, st: &mut Stats) -> Result<(), String> {
         0 => {
             let data = case.prog.render();
             let p = tmp_path("reg");
-            std::fs::write(&p, &data).map_err(|e| format!("HARNESS: cannot write temp file: {}", e))?;
+            std::fs::write(&p, &data).map_err(|e| format!("HARNESS-PANIC: cannot write temp file: {}", e))?;
             let r = must("hash_file", || ssdeep::hash_file(&p));
             let _ = std::fs::remove_file(&p);
             let r = r?;
@@ -248,7 +248,7 @@ pub fn eval_file(case: &FileCase, st: &mut Stats) -> Result<(), String> {
         }
         2 => {
             let p = tmp_path("dir");
-            std::fs::create_dir_all(&p).map_err(|e| format!("HARNESS: cannot create temp dir: {}", e))?;
+            std::fs::create_dir_all(&p).map_err(|e| format!("HARNESS-PANIC: cannot create temp dir: {}", e))?;
             let r = must("hash_file", || ssdeep::hash_file(&p));
             let _ = std::fs::remove_dir(&p);
             match r? {
@@ -260,21 +260,28 @@ pub fn eval_file(case: &FileCase, st: &mut Stats) -> Result<(), String> {
         3 => {
             // FIFO: metadata reports size 0; a writer thread delivers k bytes
             let data = case.prog.render();
-            let k = data.len().min(70000);
+            // below the pipe capacity, so that the writer can never block on a reader that does not come
+            let k = data.len().min(60000);
             let data = data[..k].to_vec();
             let p = tmp_path("fifo");
             let c = std::ffi::CString::new(p.to_str().unwrap()).unwrap();
             let rc = unsafe { libc::mkfifo(c.as_ptr(), 0o600) };
             if rc != 0 {
-                return Err("HARNESS: mkfifo failed".to_string());
+                // no FIFOs in this temp directory: nothing to judge
+                st.class("file:fifo_unavailable");
+                return Ok(());
             }
             let p2 = p.clone();
             let d2 = data.clone();
+            // a read+write handle keeps both opens from blocking; it is closed together with the
+            // writer's handle, which is what delivers end-of-file to the reader
+            let keep = std::fs::OpenOptions::new().read(true).write(true).open(&p);
             let writer = std::thread::spawn(move || {
                 use std::io::Write;
                 if let Ok(mut f) = std::fs::OpenOptions::new().write(true).open(&p2) {
                     let _ = f.write_all(&d2);
                 }
+                drop(keep);
             });
             let r = must("hash_file", || ssdeep::hash_file(&p));
             let _ = writer.join();
